@@ -217,6 +217,7 @@ func (c *crasher) restartAll() {
 			what += ", write of " + sn.torn + " cut short"
 		}
 		o.restartAndCheck(sn.dir, sn.before, sn.after, what)
+		sim.ReapChildren() // converter children of the closed instance
 		c.s.res.Count("crash_states_restarted", 1)
 		os.RemoveAll(sn.dir)
 	}
